@@ -16,6 +16,8 @@ From WG Require Import Split.Model.
 From WG Require Import Split.ArcList.
 From WG Require Import Algo.Scc.
 From WG Require Import Algo.Llp.
+From WG Require Import Algo.EssSpec.
+From WG Require Import Algo.Ess.
 
 Extraction Language OCaml.
 
@@ -155,4 +157,28 @@ Extraction "model.ml"
   check_monotone
   check_inverse
   check_iso
+  wf_graph
+  dist_matrix
+  eccs_f
+  eccs_b
+  diameter_of
+  radius_from
+  radial_of
+  largest_scc_nodes
+  check_eccf
+  check_eccb
+  check_diam
+  check_dv
+  check_rad
+  check_rv
+  check_ess_dm
+  replay
+  run_ops
+  init_st
+  find_missing
+  missing_nodes
+  output
+  check_values
+  run_logged
+  run_logged_dm
 .
